@@ -56,7 +56,7 @@ IMPORTS = ("From PM.theories Require Import Base Ladder Frontends CorrFrontends.
 VALID_KINDS = ["r1", "r2", "r3", "r4", "w5", "w6", "w15", "w16", "w22", "w23", "dev", "diag0", "fc7", "fc17"]
 HOSTILE_KINDS = ["trunc", "overlong", "bytecount", "unknown_fc", "unknown_sub", "zero_pdu", "mbap_len", "cut",
                  "random", "flip", "subst", "insert", "delete", "split", "pipelined",
-                 "noise_trunc", "trunc_split"]
+                 "noise_trunc", "trunc_split", "bytecount_pad"]
 
 
 def valid_pdu(r, kind, size):
@@ -110,6 +110,14 @@ def hostile(r, kind, framer, uid, size):
         i = 5 if p[0] in (15, 16) else 9
         p[i] = r.choice([0, 1, p[i] + 1, p[i] - 1 if p[i] else 3, 255])
         return [L.frame(framer, tid, uid, bytes(p))]
+    if kind == "bytecount_pad":
+        # register writes whose byte count is 2*quantity + 1 / + 2 and which carry data for the LARGER count: the
+        # quantity says N registers, anything written beyond them (or at all) is unexplained
+        p = bytearray(valid_pdu(r, r.choice(["w16", "w23"]), size))
+        i = 5 if p[0] == 16 else 9
+        extra = r.choice([1, 2])
+        p[i] = p[i] + extra
+        return [L.frame(framer, tid, uid, bytes(p) + bytes(r.randrange(1, 256) for _ in range(2)))]
     if kind == "unknown_fc":
         return [L.frame(framer, tid, uid, bytes([r.choice([0, 9, 10, 0x19, 0x63, 0x7F, 0x80, 0x83, 0xFF])]) + base[1:])]
     if kind == "unknown_sub":
